@@ -1,2 +1,302 @@
+"""PARAM + FLAGS rules of C13 (shared with C14 / C15 / C20).
+
+The documented acceptance table is transcribed here by *documented names only* (trait, position, parameter names and
+their aliases, value class); everything internal (enable_* field names, helper function names, variable names) is read
+from the source: the parser model tells which enable-switch guards which documented parameter, the builder sites tell
+which value each switch has at each (trait, position, shape, context)."""
+from ..syn import es, pat_s
+from ..terms import term_s, subterms
+from ..walk import ctx_s
+from ..facts import atom_s
+from ..parsers import meta_parsers, MetaParserModel, ret_value_kind, _under
+from ..metafacts import conjuncts
+
+# value classes of the conversion helpers (decided by their acceptance tables in C14; named here)
+BOOLP, BOOL, IDENT, IDENTBOOL, PATH, ISIZE, EXPR, WHERE = 'bool-or-bare', 'bool', 'ident', 'ident-or-bool', 'path', 'isize', 'expr', 'where'
+
+# (trait, level) -> {frozenset(aliases): value class}
+PARAMS = {
+    ('Debug', 'type'): {('name', 'rename'): IDENTBOOL, ('named_field',): BOOL, ('bound',): WHERE},
+    ('Debug', 'field'): {('name', 'rename'): IDENT, ('ignore',): BOOLP, ('method',): PATH},
+    ('PartialEq', 'type'): {('bound',): WHERE},
+    ('PartialEq', 'field'): {('ignore',): BOOLP, ('method',): PATH},
+    ('Hash', 'type'): {('bound',): WHERE},
+    ('Hash', 'field'): {('ignore',): BOOLP, ('method',): PATH},
+    ('Ord', 'type'): {('bound',): WHERE},
+    ('Ord', 'field'): {('ignore',): BOOLP, ('method',): PATH, ('rank',): ISIZE},
+    ('PartialOrd', 'type'): {('bound',): WHERE},
+    ('PartialOrd', 'field'): {('ignore',): BOOLP, ('method',): PATH, ('rank',): ISIZE},
+    ('Clone', 'type'): {('bound',): WHERE},
+    ('Clone', 'field'): {('method',): PATH},
+    ('Copy', 'type'): {('bound',): WHERE},
+    ('Copy', 'field'): {},
+    ('Eq', 'type'): {('bound',): WHERE},
+    ('Eq', 'field'): {},
+    ('Default', 'type'): {('new',): BOOLP, ('expression', 'expr'): EXPR, ('bound',): WHERE},
+    ('Default', 'field'): {('expression', 'expr'): EXPR},
+    ('Deref', 'type'): {}, ('Deref', 'field'): {}, ('DerefMut', 'type'): {}, ('DerefMut', 'field'): {},
+    ('Into', 'type'): {('bound',): WHERE},
+    ('Into', 'field'): {('method',): PATH},
+}
+
+HELPER_CLASS = {
+    'meta_2_bool_allow_path': BOOLP, 'meta_2_bool': BOOL, 'meta_2_ident': IDENT, 'meta_2_ident_and_bool': IDENTBOOL,
+    'meta_2_path': PATH, 'meta_2_isize': ISIZE, 'meta_2_expr': EXPR, 'Bound::from_meta': WHERE,
+}
+
+
+def level_of(mp):
+    return 'field' if (mp.fn.self_ty or '').startswith('Field') else 'type'
+
+
 def check(cx, facts, rep):
-    pass
+    mps = meta_parsers(cx)
+    if len(mps) < 20:
+        rep.broken.append('only %d build_from_*_meta parsers found (24 on the pinned tree)' % len(mps))
+    models = {}
+    for mp in mps:
+        m = MetaParserModel(cx, mp)
+        models[(mp.trait, level_of(mp))] = m
+        check_parser(cx, facts, rep, mp, m)
+    cx._param_models = models
+    from . import c13_flags
+    c13_flags.check(cx, facts, rep, models)
+    rep.floor('PARAM', 100, '(30 parameter arms × 5 clauses + form arms)')
+
+
+def check_parser(cx, facts, rep, mp, m):
+    f = mp.fn
+    where = f.qname
+    key = (mp.trait, level_of(mp))
+    spec = PARAMS.get(key)
+    if spec is None:
+        rep.bad('PARAM', where, 'unknown-parser', 'parameter parser for an unknown (trait, level) %s' % (key,), f.file, f.line)
+        return
+    if m.problems and (spec or 'List' in m.arms or m.top is None):
+        if not (m.top is None and not spec and always_err(cx, f)):
+            for p in m.problems:
+                rep.bad('PARAM', where, 'model', 'parameter parser not understood: %s' % p, f.file, f.line)
+            return
+        rep.ok('PARAM', where + '|refuses-every-form')
+        return
+    # parameter arms vs documented parameters
+    got = {tuple(g.names): g for g in m.params}
+    for names, cls in spec.items():
+        g = None
+        for k in got:
+            if set(k) == set(names):
+                g = got[k]
+        inst = 'param=%s' % '|'.join(names)
+        if g is None:
+            rep.bad('PARAM', where, inst, 'documented parameter `%s` (aliases %s) has no arm accepting exactly these spellings (arms: %s)' % (names[0], list(names), [list(k) for k in got]),
+                    f.file, f.line)
+            continue
+        check_arm(cx, rep, f, where, g, cls, inst, mp.trait)
+    for k in got:
+        if not any(set(k) == set(n) for n in spec):
+            rep.bad('PARAM', where, 'param=%s' % '|'.join(k), 'parameter arm `%s` is not a documented parameter of %s at %s level' % ('|'.join(k), mp.trait, level_of(mp)),
+                    f.file, got[k].line)
+    if m.params or 'List' in m.arms and spec:
+        if m.params:
+            if m.default_false:
+                rep.ok('PARAM', where + '|unknown-parameter-refused')
+            else:
+                rep.bad('PARAM', where, 'unknown-parameter', 'an unknown parameter is not refused: the handler closure does not end in `Ok(false)`', f.file, f.line)
+            if m.tail_loop_ok:
+                rep.ok('PARAM', where + '|every-parameter-checked')
+            else:
+                rep.bad('PARAM', where, 'all-parameters', 'not every parameter of the list is passed through the handler with `!handler(p)? ⇒ Err(attribute_incorrect_format)`', f.file, f.line)
+    # arms may not write each other's targets
+    targets = {}
+    for g in m.params:
+        for nm, v, ev in g.sets:
+            targets.setdefault(nm, set()).add(tuple(g.names))
+    for nm, owners in targets.items():
+        if len(owners) > 1:
+            rep.bad('PARAM', where, 'shared-target=%s' % nm, 'variable `%s` is assigned by the arms of several parameters %s' % (nm, sorted(owners)), f.file, f.line)
+    check_forms(cx, facts, rep, mp, m)
+
+
+def always_err(cx, f):
+    fw = cx.fw(f)
+    rets = [ev for ev in fw.events if ev.kind == 'exit' and ev.how == 'return']
+    return bool(rets) and all(isinstance(ret_value_kind(e), tuple) for e in rets) and not [e for e in fw.events if e.kind == 'tail' and getattr(e, 'is_fn_body', False) and es(e.node).startswith('Ok')]
+
+
+def check_arm(cx, rep, f, where, g, cls, inst, trait):
+    # P1 enable check (Into's parameters have no switch: always enabled once the list form is enabled)
+    if g.enable is None and trait != 'Into':
+        rep.bad('PARAM', where, inst + '-switch', 'the arm does not start with its `if !self.enable_* { return Ok(false) }` switch: the parameter cannot be disabled per position', f.file, g.line)
+    else:
+        rep.ok('PARAM', '%s|%s|switch=%s' % (where, inst, g.enable))
+    # P2 conversion
+    if g.conv is None:
+        rep.bad('PARAM', where, inst + '-conversion', 'the value is not converted by a meta_2_* helper', f.file, g.line)
+    else:
+        helper = g.conv[0].split('::')[-1] if not g.conv[0].startswith('Bound::') else g.conv[0]
+        hc = HELPER_CLASS.get(helper)
+        if hc != cls or g.conv[1] != ['&meta']:
+            rep.bad('PARAM', where, inst + '-conversion', 'parameter `%s` takes a %s value but is converted with `%s(%s)`' % (g.names[0], cls, g.conv[0], ', '.join(g.conv[1])), f.file, g.line)
+        else:
+            rep.ok('PARAM', '%s|%s|conversion=%s' % (where, inst, cls))
+    # P3 reset
+    if g.reset_flag is None or g.flag_set is None or g.reset_flag != g.flag_set:
+        rep.bad('PARAM', where, inst + '-reset', 'giving `%s` twice is not rejected with parameter_reset through its own *_is_set flag (tested `%s`, set `%s`)' % (g.names[0], g.reset_flag, g.flag_set),
+                f.file, g.line)
+    else:
+        rep.ok('PARAM', '%s|%s|reset-flag=%s' % (where, inst, g.flag_set))
+    # P4 effects
+    if not g.sets:
+        rep.bad('PARAM', where, inst + '-effect', 'the arm stores nothing', f.file, g.line)
+    else:
+        bad = False
+        v = g.conv_def.name if getattr(g, 'conv_def', None) is not None else 'v'
+        for nm, val, ev in g.sets:
+            txt = es(val)
+            if nm.endswith('_span'):
+                continue
+            if v not in txt.replace('(', ' ').replace(')', ' ').replace(',', ' ').split() and not (val['k'] == 'Match' and es(val['expr']) == v):
+                rep.bad('PARAM', where, inst + '-effect', 'the arm assigns `%s = %s`, which does not use the converted value `%s`' % (nm, txt[:60], v), f.file, ev.line)
+                bad = True
+        if not bad:
+            rep.ok('PARAM', '%s|%s|stores=%s' % (where, inst, ','.join(sorted(n for n, _, _ in g.sets))))
+    # P5 order + result
+    if not g.returns_true:
+        rep.bad('PARAM', where, inst + '-result', 'the arm does not end in `return Ok(true)`', f.file, g.line)
+    elif not g.order_ok:
+        rep.bad('PARAM', where, inst + '-order', 'switch / conversion / reset check / store are not in this order (%s): e.g. the value is stored before the duplicate check' % g.order, f.file, g.line)
+    else:
+        rep.ok('PARAM', '%s|%s|order' % (where, inst))
+    for rk, conds, ev in g.other_exits:
+        rep.bad('PARAM', where, inst + '-extra-exit', 'unexpected exit `%s` under %s in the arm of `%s`' % (rk, conds, g.names[0]), f.file, ev.line)
+
+
+# ------------------------------------------------------------------------------------------
+# the three meta forms
+# ------------------------------------------------------------------------------------------
+
+def arm_decisions(cx, m, kind):
+    """[(frozenset of (switch, bool)), effect] for the events of a form arm, outside the handler closure"""
+    if kind not in m.arms:
+        return None
+    idx, evs, arm = m.arms[kind]
+    cid = m.closure.entry['id'] if m.closure is not None else None
+    out = []
+    for e in evs:
+        if cid is not None and any(c.get('id') == cid for c in e.ctx):
+            continue
+        conds = []
+        other = []
+        seen_arm = False
+        for c in e.ctx:
+            if c.get('id') == m.top.id:
+                seen_arm = True
+                continue
+            if not seen_arm:
+                continue
+            if c['k'] == 'if':
+                t = es(c['cond']).replace(' ', '')
+                pol = c['pol']
+                if t.startswith('!'):
+                    t = t[1:]
+                    pol = not pol
+                if t.startswith('self.enable_'):
+                    conds.append((t[len('self.'):], pol))
+                else:
+                    other.append(ctx_s((c,)))
+            elif c['k'] in ('arm', 'iflet', 'for', 'survive'):
+                other.append(ctx_s((c,)))
+        if e.kind == 'exit' and e.how == 'return':
+            out.append((frozenset(conds), ('exit', ret_value_kind(e)), tuple(other), e))
+        elif e.kind == 'assign':
+            out.append((frozenset(conds), ('assign', es(e.target), es(e.value)), tuple(other), e))
+        elif e.kind == 'let' and e.init is not None and e.init['k'] != 'Closure' and kind != 'List':
+            out.append((frozenset(conds), ('let', e.defs[0].name if e.defs else '?', es(e.init)), tuple(other), e))
+    return out
+
+
+def check_forms(cx, facts, rep, mp, m):
+    f = mp.fn
+    where = f.qname
+    trait, level = mp.trait, level_of(mp)
+    if m.top is None:
+        return
+    # --- bare `Trait` form -----------------------------------------------------------------
+    d = arm_decisions(cx, m, 'Path')
+    exp_flag = (level == 'type' and trait != 'Into') or (level == 'field' and trait in ('Default', 'Deref', 'DerefMut'))
+    errs = [x for x in d if x[1][0] == 'exit' and isinstance(x[1][1], tuple)]
+    if exp_flag:
+        ok = len(errs) == 1 and len(errs[0][0]) == 1 and list(errs[0][0])[0][1] is False and not errs[0][2]
+        if ok:
+            m.flag_switch = list(errs[0][0])[0][0]
+            rep.ok('PARAM', '%s|bare-form-iff-%s' % (where, m.flag_switch))
+        else:
+            rep.bad('PARAM', where, 'bare-form', 'the bare `%s` form must be accepted exactly when its switch is on (found exits %s)' % (trait, [(sorted(x[0]), x[1][1]) for x in errs]), f.file, f.line)
+    else:
+        ok = len(errs) >= 1 and any(not x[0] and not x[2] for x in errs)
+        if ok:
+            rep.ok('PARAM', '%s|bare-form-refused' % where)
+        else:
+            rep.bad('PARAM', where, 'bare-form', 'the bare `%s` form must always be refused at %s level' % (trait, level), f.file, f.line)
+    # --- `Trait = value` shorthand ------------------------------------------------------------
+    d = arm_decisions(cx, m, 'NameValue')
+    errs = [x for x in d if x[1][0] == 'exit' and isinstance(x[1][1], tuple)]
+    assigns = [x for x in d if x[1][0] == 'assign']
+    kind = None
+    if level == 'field' and trait in ('PartialEq', 'Hash', 'Ord', 'PartialOrd'):
+        kind = 'ignore'
+    elif level == 'field' and trait == 'Debug':
+        kind = 'debug-field'
+    elif level == 'type' and trait == 'Debug':
+        kind = 'debug-type'
+    elif level == 'field' and trait == 'Default':
+        kind = 'default-field'
+    if kind is None:
+        ok = any(not x[0] and not x[2] for x in errs) and not assigns
+        if ok:
+            rep.ok('PARAM', '%s|shorthand-refused' % where)
+        else:
+            rep.bad('PARAM', where, 'shorthand', '`%s = value` must always be refused at %s level (assignments: %s)' % (trait, level, [a[1][1:] for a in assigns]), f.file, f.line)
+        m.shorthand = {}
+        return
+    sw_of = {tuple(g.names)[0]: g.enable for g in m.params}
+    sh = {}
+    if kind == 'ignore':
+        sw = sw_of.get('ignore')
+        a = [x for x in assigns if x[1][1] == 'ignore']
+        ok = (len(a) == 1 and a[0][0] == frozenset([(sw, True)]) and a[0][1][2].replace(' ', '') == '!meta_name_value_2_bool(name_value)?'
+              and len(errs) == 1 and errs[0][0] == frozenset([(sw, False)]) and len(assigns) == 1)
+        sh = {'ignore': sw}
+        msg = '`%s = false` must set ignore to the negated boolean exactly when `ignore` is enabled, and be refused otherwise' % trait
+    elif kind == 'debug-type':
+        sw = sw_of.get('name')
+        a = [x for x in assigns if x[1][1] == 'name']
+        ok = (len(a) == 1 and a[0][1][2].replace(' ', '') == 'TypeName::Custom(meta_name_value_2_ident(name_value)?)'
+              and len(errs) == 1 and errs[0][0] == frozenset([(sw, False)]) and len(assigns) == 1 and a[0][0] <= frozenset([(sw, True)]))
+        sh = {'name': sw}
+        msg = '`Debug = Name` must set the custom name exactly when `name` is enabled'
+    elif kind == 'default-field':
+        sw = sw_of.get('expression')
+        a = [x for x in assigns if x[1][1] == 'expression']
+        ok = (len(a) == 1 and a[0][1][2].replace(' ', '') == 'Some(auto_adjust_expr(name_value.value.clone(),Some(ty)))'
+              and len(errs) == 1 and errs[0][0] == frozenset([(sw, False)]) and len(assigns) == 1 and a[0][0] <= frozenset([(sw, True)]))
+        sh = {'expression': sw}
+        msg = '`Default = expr` must set the (auto-adjusted) expression exactly when `expression` is enabled'
+    else:  # debug-field
+        swn, swi = sw_of.get('name'), sw_of.get('ignore')
+        an = [x for x in assigns if x[1][1] == 'name']
+        ai = [x for x in assigns if x[1][1] == 'ignore']
+        conds_n = set(x[0] for x in an)
+        conds_i = set(x[0] for x in ai)
+        ok = (conds_n == {frozenset([(swn, True), (swi, True)]), frozenset([(swn, True), (swi, False)])}
+              and conds_i == {frozenset([(swn, True), (swi, True)]), frozenset([(swn, False), (swi, True)])}
+              and len(errs) == 1 and errs[0][0] == frozenset([(swn, False), (swi, False)])
+              and all(x[1][2].replace(' ', '') in ('FieldName::Custom(ident)', 'FieldName::Custom(meta_name_value_2_ident(name_value)?)') for x in an)
+              and all(x[1][2].replace(' ', '') in ('!b', '!meta_name_value_2_bool(name_value)?') for x in ai))
+        sh = {'name': swn, 'ignore': swi}
+        msg = '`Debug = Name` / `Debug = false` on a field must follow the name/ignore switches'
+    m.shorthand = sh
+    if ok:
+        rep.ok('PARAM', '%s|shorthand=%s' % (where, kind), {'parser': where, 'shorthand': kind, 'switches': sh})
+    else:
+        rep.bad('PARAM', where, 'shorthand', msg + ' (found assignments %s, refusals %s)' % ([(sorted(x[0]), x[1][1], x[1][2][:50]) for x in assigns], [sorted(x[0]) for x in errs]), f.file, f.line)
